@@ -257,7 +257,8 @@ def r1_transform(ctx, s):
            "structures are returned as copies carrying the transformed coordinates", ap.lineno)
     # constructor
     init = s.func("AffineTransformation.__init__")
-    got = {ast.unparse(st.targets[0]): ast.unparse(st.value) for st in stmts(init) if isinstance(st, ast.Assign)}
+    got = {ast.unparse(st.targets[0]): ast.unparse(st.value) for st in stmts(init) if isinstance(st, ast.Assign)
+           and ast.unparse(st.targets[0]).startswith("self.")}
     ctx.ob("R1.init-dims", SUP, "AffineTransformation.__init__", str(sorted(got.items())),
            got == {"self.center_translation": "_expand_dims(center_translation, 2)", "self.rotation": "_expand_dims(rotation, 3)",
                    "self.target_translation": "_expand_dims(target_translation, 2)"},
@@ -450,7 +451,8 @@ def r4_outliers(ctx, s):
             ctx.ob("R4.mask-copy", SUP, f.name, f"{nm} = {ast.unparse(src) if src is not None else '?'}",
                    isinstance(src, ast.Call) and isinstance(src.func, ast.Attribute) and src.func.attr == "copy",
                    "a mask updated in place must be a copy, otherwise the mask the fit used changes with it", st.lineno)
-    ctx.ob("R4.loop-carry", SUP, f.name, "inlier_mask = updated_inlier_mask", body[0] == f"{m} = updated_{m}" if m else False,
+    carry = [k for k, st in enumerate(loop.body) if m and ast.unparse(st) == f"{m} = updated_{m}"]
+    ctx.ob("R4.loop-carry", SUP, f.name, "inlier_mask = updated_inlier_mask", len(carry) == 1 and carry[0] < idx,
            "each iteration fits on the mask produced by the previous one", loop.lineno)
     ctx.ob("R4.distance-pair", SUP, f.name, "sq_dist", "sq_dist = distance(filtered_fixed_coord, superimposed_coord) ** 2" in body,
            "outliers are judged by the squared distance between fixed and fitted mobile anchors", loop.lineno)
